@@ -320,7 +320,7 @@ pub async fn run(cx: &mut Ctx) {
         // recovery, journalled on its own (for crash-during-recovery)
         interpose::start(&img_root, false);
         let vio_before = cx.vio.len();
-        let r = recover_and_check(cx, &knobs, &img_root, &names_all, &candidates, &label, pi, true, &rec).await;
+        let r = recover_and_check(cx, &knobs, &img_root, &names_all, &candidates, &label, pi, cp.k, true, &rec).await;
         let mut recovery_journal = interpose::journal_snapshot();
         recovery_journal.truncate(cx.stats.probes.get("_recovery_journal_len").copied().unwrap_or(0) as usize);
         interpose::stop();
@@ -354,7 +354,7 @@ pub async fn run(cx: &mut Ctx) {
                     .collect();
                 let l2 = format!("{label} then crash after {j} recovery steps");
                 let vio_before = cx.vio.len();
-                let _ = recover_and_check(cx, &knobs, &img2, &names_all, &[want], &l2, pi, false, &rec).await;
+                let _ = recover_and_check(cx, &knobs, &img2, &names_all, &[want], &l2, pi, cp.k, false, &rec).await;
                 interpose::stop();
                 pin_new(cx, vio_before, cp, true);
             }
@@ -403,11 +403,16 @@ async fn recover_and_check(
     candidates: &[State],
     label: &str,
     pi: usize,
+    // varies the probe statements; a function of the crash point only, so that a replay of this
+    // crash point alone issues the same probes
+    salt: usize,
     probes: bool,
     rec: &Recorded,
 ) -> Option<BTreeMap<String, Option<Vec<Row>>>> {
     let vio_at_entry = cx.vio.len();
     let mut probed_tables: Option<Vec<String>> = None;
+    // rows each probed table must hold after the probe statements (and after the next reopen)
+    let mut want_after: BTreeMap<String, Vec<Row>> = BTreeMap::new();
     let db = match Db::open(knobs.options(img_root)).await {
         Ok(d) => d,
         Err(e) => {
@@ -465,7 +470,7 @@ async fn recover_and_check(
         if let Some(m) = defs {
             probed_tables = Some(m.tables.keys().cloned().collect());
             for (n, (def, rows)) in &m.tables {
-                let mut rng = Rng::new(pi as u64 ^ 0xBEEF);
+                let mut rng = Rng::new(salt as u64 ^ 0xBEEF);
                 let row: Row = def
                     .cols
                     .iter()
@@ -474,6 +479,9 @@ async fn recover_and_check(
                         Ty::Varchar => Val::Str("probe".into()),
                         Ty::Bool => Val::Bool(true),
                         Ty::Double => Val::F(0.5),
+                        Ty::SmallInt => Val::Int(5000 + rng.range(0, 50)),
+                        Ty::Decimal => Val::Dec(12345),
+                        Ty::Date => Val::Date("2031-07-09".into()),
                     })
                     .collect();
                 let ins = Stmt::Insert {
@@ -509,18 +517,43 @@ async fn recover_and_check(
                         break;
                     }
                 }
-                let del = format!("DELETE FROM {n}");
+                // alternately: delete everything, or only the rows equal to one existing row (a
+                // short delete vector on a row-set the interrupted statement may have touched)
+                let narrow = (salt + rows.len()) % 2 == 1 && !rows.is_empty();
+                let (del, removed) = if narrow {
+                    let r0 = &rows[(salt / 2) % rows.len()];
+                    let pred = Pred(
+                        def.cols
+                            .iter()
+                            .zip(r0.iter())
+                            .map(|(c, v)| {
+                                if v.is_null() {
+                                    Atom::IsNull { col: c.name.clone() }
+                                } else {
+                                    Atom::Cmp { col: c.name.clone(), op: Cmp::Eq, val: v.clone() }
+                                }
+                            })
+                            .collect(),
+                    );
+                    let hit = want.iter().filter(|r| pred.holds(def, r)).count();
+                    want.retain(|r| !pred.holds(def, r));
+                    (format!("DELETE FROM {n}{}", pred.sql()), hit)
+                } else {
+                    let k = want.len();
+                    want.clear();
+                    (format!("DELETE FROM {n}"), k)
+                };
+                want_after.insert(n.clone(), want.clone());
                 let o = db.exec(&del).await;
-                if o.count() != Some(want.len() as i64) {
+                if o.count() != Some(removed as i64) {
                     cx.violate(
                         Violation::new(
                             "C04",
                             "post-recovery-statement-rejected",
                             Some(pi),
                             format!(
-                                "{label}: after recovery {del} => {} (expected {} rows)",
-                                o.brief(),
-                                want.len()
+                                "{label}: after recovery {del} => {} (expected {removed} rows)",
+                                o.brief()
                             ),
                         )
                         .with_sig(&crate::hist::err_class(&o)),
@@ -555,17 +588,19 @@ async fn recover_and_check(
                 let mut names2: Vec<String> = probed_tables.clone().unwrap();
                 names2.push("probe_new".into());
                 let obs2 = observe(&db2, &names2).await;
-                // every probed table was emptied by `DELETE FROM t`; probe_new was created
+                // every probed table holds what the probe statements left; probe_new was created
                 for (n, rows) in &obs2 {
+                    let want = want_after.get(n).cloned().unwrap_or_default();
                     match rows {
-                        Some(r) if r.is_empty() => {}
+                        Some(r) if multiset_diff(r, &want).is_none() => {}
                         other => {
                             cx.violate(Violation::new(
                                 "C04",
                                 "post-recovery-statements-not-durable",
                                 Some(pi),
                                 format!(
-                                    "{label}: after recovery the database acknowledged INSERT / DELETE FROM {n} / CREATE TABLE probe_new; after a clean shutdown and reopen {n} is {}",
+                                    "{label}: after recovery the database acknowledged INSERT / DELETE FROM {n} / CREATE TABLE probe_new leaving {} rows; after a clean shutdown and reopen {n} is {}",
+                                    want.len(),
                                     match other {
                                         Some(r) => format!("{} rows [{}]", r.len(), rows_brief(r, 6)),
                                         None => "absent".into(),
